@@ -21,7 +21,28 @@ use std::time::Instant;
 const PID: &str = "C01";
 
 pub fn gen_opts() -> GenOpts {
-    GenOpts { allow: Allow::default(), max_expr_depth: 4, max_stmt_depth: 3, loose_tail: false }
+    let mut allow = Allow::default();
+    // F11 is fixed in /repo (eab8141): declarations directly in case clauses are generated
+    allow.let_in_case = true;
+    // F2a, F2b and the uint std::max literal are fixed as well (9efe527, 1d6f744, 231d268)
+    allow.nasty_strings = true;
+    allow.rem_double = true;
+    allow.uint_minmax_literal = true;
+    // experiments: QV_ALLOW=rem_double,enum_bitwise,... switches generator features on
+    if let Ok(v) = std::env::var("QV_ALLOW") {
+        for f in v.split(',') {
+            match f {
+                "rem_double" => allow.rem_double = true,
+                "enum_bitwise" => allow.enum_bitwise = true,
+                "nasty_strings" => allow.nasty_strings = true,
+                "let_in_case" => allow.let_in_case = true,
+                "uint_minmax_literal" => allow.uint_minmax_literal = true,
+                "less_than" => allow.less_than = true,
+                _ => {}
+            }
+        }
+    }
+    GenOpts { allow, max_expr_depth: 4, max_stmt_depth: 3, loose_tail: false }
 }
 
 pub fn eval_binding(b: &BindingSite, state: &[ObjState]) -> Result<(V, Vec<(usize, &'static str)>), Undef> {
@@ -294,6 +315,12 @@ pub fn build_case(ch: &mut Chooser, name: &str) -> Built {
     let moved = distinct.values().filter(|s| s.len() >= 2).count();
     let branchy = ["switch", "ternary", "if-else", "folded-subtree", "logical-and", "logical-or", "early-return", "else-if-chain"].iter().any(|l| ch.labels.contains(l));
     let nontrivial = (moved >= 1 && branchy).then(|| stable_hash(&p.qml));
+    if let Ok(l) = std::env::var("QV_DUMP_LABEL") {
+        if ch.labels.iter().any(|x| *x == l) {
+            let _ = std::fs::create_dir_all("/tmp/cx/dump");
+            let _ = std::fs::write(format!("/tmp/cx/dump/{name}.qml"), &p.qml);
+        }
+    }
     let unit = DocUnit { name: name.to_owned(), header: p.header.clone(), form: p.form.clone(), init: cxx_init(world, &p.state), steps };
     let sample = json!({"qml": p.qml, "steps": unit.steps.iter().map(|s| s.desc.clone()).collect::<Vec<_>>(), "last_values": unit.steps.last().map(|s| s.expect.clone())});
     Built::Case(Box::new(CxxCase {
@@ -344,7 +371,7 @@ pub fn replay(v: &Value) -> Outcome {
 }
 
 pub fn run(env: &Env, known: &Known, started: Instant, replayed: u64, replay_violations: Vec<Violation>) -> i32 {
-    let cfg = Campaign { env, pid: PID, part: "programs", cases: env.tier.pick(192, 6000), max_len: 4000, per_tu: 6, known, shrink_steps: 24 };
+    let cfg = Campaign { env, pid: PID, part: "programs", cases: env.tier.pick(384, 12000), max_len: 4000, per_tu: 6, known, shrink_steps: 24 };
     let rr = campaign(&cfg, build_case, &key_of);
     let ev = Evidence {
         env, pid: PID, level: "exploration",
